@@ -26,7 +26,8 @@ struct Probe {
   char* block;
 };
 
-#define VF_LED_MAX (1u << 22)
+static uint64_t vf_led_cap = (1u << 22);    /* grows on demand */
+#define VF_LED_MAX vf_led_cap
 #define VF_PROBE_POISON 0xDEAD000000000000ULL
 
 static uint8_t* vf_led;          /* 0 unused, 1 live, 2 retired */
@@ -52,7 +53,13 @@ static void vf_led_reset(void) {
 
 static uint64_t vf_led_issue(void) {
   if (!vf_led) vf_led_reset();
-  if (vf_led_next >= VF_LED_MAX) { fprintf(stderr, "vf_probe: ledger full\n"); _exit(2); }
+  if (vf_led_next >= vf_led_cap) {
+    uint64_t ncap = vf_led_cap * 2;
+    vf_led = realloc(vf_led, ncap); vf_led_tag = realloc(vf_led_tag, ncap);
+    if (!vf_led || !vf_led_tag) { fprintf(stderr, "vf_probe: ledger out of memory\n"); _exit(2); }
+    memset(vf_led + vf_led_cap, 0, ncap - vf_led_cap); memset(vf_led_tag + vf_led_cap, 0, ncap - vf_led_cap);
+    vf_led_cap = ncap;
+  }
   uint64_t t = vf_led_next++;
   vf_led[t] = 1; vf_led_tag[t] = (uint8_t)vf_led_owner_tag;
   vf_led_live++; vf_led_issued++;
